@@ -33,6 +33,7 @@ type RelayLayer struct {
 	RemoteID    []byte
 	Extra       []dhcpv6.Option
 	Src         net.IP // address of the relay (source of the datagram for the outermost layer)
+	SrcPort     int    // UDP source port of the relay (0 = 547)
 }
 
 func (c *Client6) String() string { return fmt.Sprintf("v6c%d[%s]", c.ID, c.DUID) }
@@ -128,13 +129,17 @@ func (w *World) ifName(idx int) string {
 func (w *World) src6(c *Client6) net.UDPAddr {
 	if len(c.Relays) > 0 {
 		r := c.Relays[0]
+		port := 547
+		if r.SrcPort != 0 {
+			port = r.SrcPort // RFC 8357 relay source port, NAT66, a software relay on an ephemeral port
+		}
 		if r.Src != nil {
 			if r.Src.IsLinkLocalUnicast() {
-				return net.UDPAddr{IP: r.Src, Port: 547, Zone: w.ifName(c.Link)}
+				return net.UDPAddr{IP: r.Src, Port: port, Zone: w.ifName(c.Link)}
 			}
-			return net.UDPAddr{IP: r.Src, Port: 547}
+			return net.UDPAddr{IP: r.Src, Port: port}
 		}
-		return net.UDPAddr{IP: net.ParseIP("2001:db8:ffff::1"), Port: 547}
+		return net.UDPAddr{IP: net.ParseIP("2001:db8:ffff::1"), Port: port}
 	}
 	if c.SrcGlobal {
 		return net.UDPAddr{IP: c.Global, Port: 546}
@@ -191,6 +196,9 @@ func drawRelays(t *simrt.Tape, depth int, c *Client6) []RelayLayer {
 		ls = append(ls, l)
 	}
 	if depth > 0 {
+		if t.Draw(3) == 0 {
+			ls[0].SrcPort = 1024 + int(t.Draw(60000))
+		}
 		if t.Draw(3) == 0 {
 			ls[0].Src = net.ParseIP("fe80::1:2")
 		} else {
